@@ -14,7 +14,7 @@ _PRE = {}
 
 class Inst:
     def __init__(self, props, name, call, tier='quick', unwind=2, unwindset=None, stubs=(), models=(),
-                 cap=300, cap_thorough=1800, mem=8, desc='', shape=None, role=None, weight=1,
+                 cap=300, cap_thorough=1800, mem=4, desc='', shape=None, role=None, weight=1,
                  allow_uncovered=False, no_asserts_ok=False, sat='cadical'):
         self.props = props if isinstance(props, (list, tuple)) else [props]
         self.name, self.call, self.tier = name, call, tier
@@ -40,15 +40,16 @@ def seed():
     return _SEED
 
 
-def extra(prop, assumptions=None, coverage=None):
-    e = _EXTRA.setdefault(prop, {'assumptions': [], 'coverage': {}})
+def extra(prop, assumptions=None, coverage=None, options=None):
+    e = _EXTRA.setdefault(prop, {'assumptions': [], 'coverage': {}, 'options': {}})
+    e['options'].update(options or {})
     e['assumptions'].extend(assumptions or [])
     e['coverage'].update(coverage or {})
 
 
 def prop_extra(prop):
     import copy
-    return copy.deepcopy(_EXTRA.get(prop, {'assumptions': [], 'coverage': {}}))
+    return copy.deepcopy(_EXTRA.get(prop, {'assumptions': [], 'coverage': {}, 'options': {}}))
 
 
 def pre_check(prop, fn):
@@ -84,6 +85,12 @@ stubset('rawvec_fixed', [('simple_sds::raw_vector::RawVector::with_capacity', 's
 stubset('rawvec_reserve', [('simple_sds::raw_vector::RawVector::reserve', 'stubs::rawvec_reserve_fixed')])
 
 
+stubset('force_long', [('simple_sds::bits::bit_len', 'stubs::bit_len_force_long')])
+
+
+stubset('utf8', [('std::string::String::from_utf8', 'stubs::string_from_utf8_ascii'), ('std::str::from_utf8', 'stubs::str_from_utf8_ascii')])
+
+
 def expand_stubs(names):
     out = []
     for n in names:
@@ -102,6 +109,6 @@ def all_instances():
     global _loaded
     if not _loaded:
         _loaded = True
-        for m in ('c17', 'c05'):
+        for m in ('c17', 'c05', 'c01', 'c06'):
             importlib.import_module('kvlib.props.' + m)
     return _INSTANCES
